@@ -891,6 +891,7 @@ func (vc *FnVC) loopWrites(l *Loop) (set map[string]bool, all bool) {
 				switch x := in.(type) {
 				case ssa.CallInstruction:
 					sites[calleeShort(x.Common())] = true
+					sites[fmt.Sprintf("%s#%d", calleeShort(x.Common()), vc.siteOrdinal(x, calleeShort(x.Common())))] = true
 					if bi, ok := x.Common().Value.(*ssa.Builtin); ok && bi.Name() == "delete" {
 						sites["delete:*"] = true
 					}
@@ -910,6 +911,12 @@ func (vc *FnVC) loopWrites(l *Loop) (set map[string]bool, all bool) {
 		}
 		for _, g := range vc.ct.CallGhost {
 			hit := sites[g.Callee]
+			if g.Ordinal != 0 && hit {
+				// an ordinal-specific hook only counts if that very site is inside the loop (call sites only; other kinds stay conservative)
+				if _, isCallSite := sites[fmt.Sprintf("%s#%d", g.Callee, g.Ordinal)]; !isCallSite && !strings.Contains(g.Callee, ":") && g.Callee != "send" && g.Callee != "recv" && !strings.HasPrefix(g.Callee, "atomic.") && !strings.HasPrefix(g.Callee, "mapupdate") && !strings.HasPrefix(g.Callee, "delete") {
+					hit = false
+				}
+			}
 			for _, pre := range []string{"delete:", "mapupdate", "atomic."} {
 				if strings.HasPrefix(g.Callee, pre) && (sites[pre+"*"] || sites["mapupdate:*"] && pre == "mapupdate") {
 					hit = true
